@@ -36,6 +36,7 @@ func TestCheck(t *testing.T) {
 	r.Assume("decided on the simulated base clock only; OS scheduling jitter between a base timer firing and its handling is not modelled (the driver waits for quiescence after every firing)")
 	r.Assume("concurrent rounds: a reader certainly has the clock suspended from the return of its suspending call to the call of its resuming call and possibly from call to return; timestamps come from the same auto-ticking clock")
 	r.Assume("late delivery: the re-arm loop evaluates unsuspended time for the instant its base timer carries; its estimate may be the true value of any instant between due and delivery, so firing, re-arm duration and reported duration are judged against that interval and lateness is bounded by the unsuspended time that passed during the injected delays")
+	r.Assume("end to end the timeout and the virtual execution duration count from the moment runner.Run is entered; the executor's state updates go through an unbuffered (or already full) channel whose consumer receives each update only after the driver moved the base clock by 0, a few, or more than timeout units")
 	r.Assume("fake runner returns status.FromContextError(ctx.Err()) when its context ends, as a gRPC client call does")
 	if f := r.ReplayFile(); f != "" {
 		var w struct {
@@ -68,6 +69,8 @@ func TestCheck(t *testing.T) {
 		r.Floor(s, 10)
 	}
 	r.Floor("later-action-on-same-clock", 5)
+	r.Floor("state-update-parked-while-clock-advances:fetching-inputs", 5)
+	r.Floor("state-update-parked-while-clock-advances:running", 5)
 	// Late delivery of base timer expiries (the value carries the due time).
 	r.Floor("expiry-delivered-after-complete-suspension", 10)
 	r.Floor("expiry-delivered-late-while-unsuspended", 10)
